@@ -59,7 +59,7 @@ fn name_s() -> BoxedStrategy<B> {
     (0u16..u16::MAX).prop_map(|i| B::s(NAMES[pick(i, NAMES.len())])).boxed()
 }
 
-fn tree_s(roots: usize, with_ignore: bool) -> BoxedStrategy<TreeSpec> {
+pub fn tree_s(roots: usize, with_ignore: bool) -> BoxedStrategy<TreeSpec> {
     let path = (0..roots, proptest::collection::vec(name_s(), 0..4), name_s()).prop_map(|(r, dirs, name)| {
         let mut v = vec![B::s(ROOT_NAMES[r])];
         v.extend(dirs);
